@@ -146,66 +146,7 @@ var keyOrderTable = []struct{ Pkg, Recv, Name, Why string }{
 var sortCalls = []string{"sort.Strings", "slices.Sort", "sort.Slice", "slices.SortFunc", "sort.SliceStable"}
 
 func c11(w *core.World, r *core.Report) {
-	// ---- SEP
-	r.Rule("SEP", 6, "every strings.Join(<instance path>, sep) (and PathSlice.String(), which joins with '/') in pkg/tree and pkg/datastore whose result is used as a map key, set key or in a prefix test must use the separator constant \"\\x00\": list key values are arbitrary YANG strings (RFC 7950 9.4 excludes only C0 controls), so any printable separator makes two different instance paths produce the same key. Joins of key-less schema paths are exempt (node names cannot contain '/').")
-	for _, f := range w.RepoFns {
-		if f.Pkg == nil {
-			continue
-		}
-		pp := f.Pkg.Pkg.Path()
-		if !(strings.HasPrefix(pp, core.Module+"/pkg/tree") || strings.HasPrefix(pp, core.Module+"/pkg/datastore")) || strings.Contains(pp, "/target") {
-			continue
-		}
-		n := 0
-		for _, c := range core.Calls(f) {
-			var joined ssa.Value
-			var sepOK bool
-			var sepDesc string
-			switch {
-			case core.CalleeIs(c, "strings.Join"):
-				args := core.CallArgs(c)
-				if len(args) != 2 || !isInstancePath(args[0]) {
-					continue
-				}
-				s, isC := core.ConstString(args[1])
-				if !isC {
-					// a local variable holding a constant
-					for _, o := range core.Origins(args[1]) {
-						if cs, ok := core.ConstString(o); ok {
-							s, isC = cs, true
-						}
-					}
-				}
-				sepOK = isC && s == nulSep
-				sepDesc = fmt.Sprintf("%q", s)
-				joined = c.Value()
-			case core.CalleeIs(c, "tree.PathSlice.String"):
-				joined = c.Value()
-				sepOK = false
-				sepDesc = "\"/\" (PathSlice.String)"
-			default:
-				continue
-			}
-			if joined == nil {
-				continue
-			}
-			mapKey, prefix, _ := keyUses(joined)
-			if !mapKey && !prefix {
-				continue // rendering for logs / error messages
-			}
-			n++
-			r.Check(sepOK, "SEP", core.Site(f, "join#%d used as key", n), w.InstrPos(c), "instance path joined with "+sepDesc+" and used as a map key / in a prefix test: distinct paths can collide")
-		}
-	}
-	// the constant itself
-	if tp := w.Pkg("pkg/tree"); tp != nil {
-		if cst, ok := tp.Members["KeysIndexSep"].(*ssa.NamedConst); ok {
-			s, _ := core.ConstString(cst.Value)
-			r.Check(s == nulSep, "SEP", "tree.KeysIndexSep", w.Pos(cst.Pos()), fmt.Sprintf("the index separator must be NUL, is %q", s))
-		} else {
-			w.NoteUnresolved("const tree.KeysIndexSep")
-		}
-	}
+	ruleSEP(w, r)
 
 	// ---- NO-PREFIX-ON-JOIN
 	r.Rule("NO-PREFIX-ON-JOIN", 1, "a prefix test against a joined instance path must test whole elements: the prefix operand must be '<joined path> + separator' (and equality handled separately). A bare HasPrefix(key, join(path)) also matches siblings whose name merely starts with the last element (ethernet-1/1 vs ethernet-1/10, case member 'log' vs leaf 'log-level').")
@@ -423,4 +364,68 @@ func mapOrder(w *core.World, r *core.Report) {
 			}
 		}
 	}
+}
+
+// ruleSEP is shared by C11 and C02 (the owner's path set and the store indexes are keyed by joined paths).
+func ruleSEP(w *core.World, r *core.Report) {
+	r.Rule("SEP", 6, "every strings.Join(<instance path>, sep) (and PathSlice.String(), which joins with '/') in pkg/tree and pkg/datastore whose result is used as a map key, set key or in a prefix test must use the separator constant \"\\x00\": list key values are arbitrary YANG strings (RFC 7950 9.4 excludes only C0 controls), so any printable separator makes two different instance paths produce the same key. Joins of key-less schema paths are exempt (node names cannot contain '/').")
+	for _, f := range w.RepoFns {
+		if f.Pkg == nil {
+			continue
+		}
+		pp := f.Pkg.Pkg.Path()
+		if !(strings.HasPrefix(pp, core.Module+"/pkg/tree") || strings.HasPrefix(pp, core.Module+"/pkg/datastore")) || strings.Contains(pp, "/target") {
+			continue
+		}
+		n := 0
+		for _, c := range core.Calls(f) {
+			var joined ssa.Value
+			var sepOK bool
+			var sepDesc string
+			switch {
+			case core.CalleeIs(c, "strings.Join"):
+				args := core.CallArgs(c)
+				if len(args) != 2 || !isInstancePath(args[0]) {
+					continue
+				}
+				s, isC := core.ConstString(args[1])
+				if !isC {
+					// a local variable holding a constant
+					for _, o := range core.Origins(args[1]) {
+						if cs, ok := core.ConstString(o); ok {
+							s, isC = cs, true
+						}
+					}
+				}
+				sepOK = isC && s == nulSep
+				sepDesc = fmt.Sprintf("%q", s)
+				joined = c.Value()
+			case core.CalleeIs(c, "tree.PathSlice.String"):
+				joined = c.Value()
+				sepOK = false
+				sepDesc = "\"/\" (PathSlice.String)"
+			default:
+				continue
+			}
+			if joined == nil {
+				continue
+			}
+			mapKey, prefix, _ := keyUses(joined)
+			if !mapKey && !prefix {
+				continue // rendering for logs / error messages
+			}
+			n++
+			r.Check(sepOK, "SEP", core.Site(f, "join#%d used as key", n), w.InstrPos(c), "instance path joined with "+sepDesc+" and used as a map key / in a prefix test: distinct paths can collide")
+		}
+	}
+	// the constant itself
+	if tp := w.Pkg("pkg/tree"); tp != nil {
+		if cst, ok := tp.Members["KeysIndexSep"].(*ssa.NamedConst); ok {
+			s, _ := core.ConstString(cst.Value)
+			r.Check(s == nulSep, "SEP", "tree.KeysIndexSep", w.Pos(cst.Pos()), fmt.Sprintf("the index separator must be NUL, is %q", s))
+		} else {
+			w.NoteUnresolved("const tree.KeysIndexSep")
+		}
+	}
+
 }
